@@ -546,6 +546,34 @@ def o_unmodified(rec, world, hist=None):
 # --------------------------------------------------------------------------
 # C15
 # --------------------------------------------------------------------------
+def o_observer_start_failure(rec, world, hist=None):
+    """A composite whose k-th member fails to start: the members already
+    entered are exited exactly once, nothing else happens, the error propagates."""
+    from model.observer import ObserverStartError
+
+    out = []
+    ix = index(rec)
+    if not isinstance(rec.exc, ObserverStartError):
+        out.append(V("observer-start-error-lost", f"a progress observer failed to start but run "
+                                                  f"{'returned' if rec.exc is None else 'raised ' + repr(rec.exc)}"))
+        return out
+    if ix.starts or ix.sstarts:
+        out.append(V("work-without-observer", "calls or store operations ran although the progress observer failed to start"))
+        return out
+    for o in rec.observers:
+        kinds = [r[1] for r in o.records]
+        if "enter-raised" in kinds:
+            if kinds != ["enter-raised"]:
+                out.append(V("observer-grammar", f"member {o.tag} failed to start but then received {kinds}"))
+                return out
+            continue
+        if kinds and (kinds[0] != "enter" or kinds.count("exit") != 1 or kinds[-1] != "exit"):
+            out.append(V("observer-not-exited", f"member {o.tag} was entered before another member failed to start and was "
+                                                f"not exited exactly once: {kinds}"))
+            return out
+    return out
+
+
 def o_progress(rec, world, hist=None):
     out = []
     ix = index(rec)
@@ -553,6 +581,8 @@ def o_progress(rec, world, hist=None):
         return out
     if not rec.observers:
         return out
+    if rec.op.get("cfg", {}).get("progress") == "rec2fail":
+        return o_observer_start_failure(rec, world, hist)
     seqs = []
     for o in rec.observers:
         seqs.append([r[1:] for r in o.records])
